@@ -93,10 +93,10 @@ pub fn budget_for(prop: &str, thorough: bool) -> Budget {
         return Budget { units: n };
     }
     let units = match (prop, thorough) {
-        ("C16", false) => 1_600,
-        ("C16", true) => 60_000,
-        ("C17", false) => 480,
-        ("C17", true) => 16_000,
+        ("C16", false) => 48_000,
+        ("C16", true) => 1_600_000,
+        ("C17", false) => 6_400,
+        ("C17", true) => 200_000,
         ("C07", false) | ("C20", false) => 32_000,
         ("C07", true) | ("C20", true) => 800_000,
         ("C13", false) => 32_000,
